@@ -97,6 +97,7 @@ def cms(ctx, cfg):
     if kind == "HeavyHitters":
         f._HeavyHitters__top_x.update({"a": ctx.int("ta", 0, 100), "b": ctx.int("tb", 0, 100)})
         f._HeavyHitters__top_x_size = 2
+        f._HeavyHitters__smallest = ctx.int("smallest", 0, 100)       # the cached eviction threshold after earlier evictions
         table = dict(f.heavy_hitters)
     if kind == "StreamThreshold":
         f._StreamThreshold__meets_threshold.update({"a": ctx.int("ta", 5, 100)})
@@ -119,6 +120,15 @@ def cms(ctx, cfg):
         ctx.check(f.heavy_hitters == {} and f._HeavyHitters__top_x_size == 0 and f._HeavyHitters__smallest == 0, "tables-cleared")
     if kind == "StreamThreshold":
         ctx.check(f.meets_threshold == {}, "tables-cleared")
+    # behaviour after clear(): the same three adds on the cleared and on the fresh object give the same answers and tables
+    if kind in ("HeavyHitters", "StreamThreshold"):
+        n1, n2, n3 = ctx.int("n1", 1, 50), ctx.int("n2", 1, 50), ctx.int("n3", 1, 50)
+        outs = []
+        for o in (f, fresh):
+            outs.append([o.add("k1", n1), o.add("k2", n2), o.add("k3", n3)])
+        ta, tb = (f.heavy_hitters, fresh.heavy_hitters) if kind == "HeavyHitters" else (f.meets_threshold, fresh.meets_threshold)
+        ctx.check(ctx.and_([ctx.eq(x, y) for x, y in zip(*outs)]), "cleared-behaves-like-fresh")
+        ctx.check(sorted(ta) == sorted(tb) and ctx.fork(ctx.and_([ctx.eq(ta[k], tb[k]) for k in ta])), "cleared-behaves-like-fresh")
 
 
 def cuckoo(ctx, cfg):
@@ -145,7 +155,9 @@ def qf(ctx, cfg):
     env.setup(ctx, "qf", "utilities")
     from probables import QuotientFilter
     from .c04 import _hash
-    f = QuotientFilter(quotient=3, auto_expand=False, hash_function=lambda key, seed=0: 12345)
+    f = QuotientFilter(quotient=3, auto_expand=bool(cfg.get("auto")), hash_function=lambda key, seed=0: 12345)
+    if cfg.get("auto"):
+        f.max_load_factor = 0.25        # the filter rests at / above its growth threshold: a query must still not grow it
     model = []
     for i, q in enumerate(cfg["qs"]):
         x = _hash(ctx, f"r{i}", q)
@@ -191,4 +203,6 @@ def jobs(tier):
             if n == 3 and not (qs[0] <= qs[1] <= qs[2]):
                 continue
             js.append({"h": "c19.qf", "cfg": {"qs": list(qs), "pq": qs[0] if qs else 0}, "opts": dict(o, cost=n + 1)})
+            if n == 2:
+                js.append({"h": "c19.qf", "cfg": {"qs": list(qs), "pq": qs[0], "auto": True}, "opts": dict(o, cost=n + 1)})
     return js
